@@ -410,7 +410,7 @@ class Isotonic(Leaf):
         mask = np.isnan(x)
         ood_mask = ~mask & ((x <= self.distribution.a) | (x >= self.distribution.b))
         lls[~mask] = self.distribution.logpdf(x[~mask])
-        lls[ood_mask] = np.log(np.finfo(np.float64).eps)
+        lls[ood_mask] = np.log(np.finfo(np.float32).eps)
         return lls
 
     def mpe(self, x: np.ndarray) -> np.ndarray:
